@@ -95,4 +95,50 @@ let () = iter_lines (fun line ->
            match normalise j with
            | None -> print_endline "N"
            | Some r -> print_endline ("V" ^ json_text r))
+  (* ---- properties format (CodecProps.v) ----
+     PW  <prefix> <keys> <values>      cmd_map_to_properties in the order of the lists:
+                                         V<text> | E<kind>, then TAB C<1|0> (every pair pair_clean: the text does not depend on
+                                         the order) TAB D<one letter per pair: r representable, c a character outside char_ok,
+                                         u bytes not UTF-8, t an escape is cut, b the key's bytes start with the UTF-8 byte order mark> TAB N<1|0> (written keys distinct)
+     PR  <prefix> <text>               cmd_map_load_properties into an empty map: M<k v k v ...> (insertion order) | E<kind>:<line>
+     PRT <p> <q> <keys> <values>       pp_roundtrip: <PW result> TAB <PR result | ->
+     PDOM <prefix> <keys> <values>     the domain of C17_properties: D<1|0 per pair (representable of the prefixed pair)> TAB N<1|0> (keys distinct)
+     W1252 <code points>               w1252_encode_char of each: byte or -1 *)
+  | ["PW"; p; ks; vs] ->
+      let m = List.combine (list_of_field ks) (list_of_field vs) in
+      let pm = pp_prefix_map (str_of_field p) m in
+      let clean = List.for_all (fun (k, v) -> pair_clean k v) pm in
+      let r = match cmd_map_to_properties (str_of_field p) m with
+        | POk t -> "V" ^ field_of_str t | PErr (k, _) -> "E" ^ string_of_int (int_of_n k) | PFuel -> "OOF" in
+      let reason (k, v) =
+        if representable (k, v) then "r"
+        else if not (List.for_all char_ok k && List.for_all char_ok v) then "c"
+        else if not (utf8_ok (wire_bytes (pp_write_escaped k)) && utf8_ok (wire_bytes (pp_write_escaped v))) then "u"
+        else if not (pair_clean k v) then "t"
+        else "b" in
+      print_endline (r ^ "\tC" ^ (if clean then "1" else "0") ^ "\tD" ^ String.concat "" (List.map reason pm)
+                     ^ "\tN" ^ (if str_nodup (List.map fst pm) then "1" else "0"))
+  | ["PR"; p; t] ->
+      (match cmd_map_load_properties (str_of_field p) [] (str_of_field t) with
+       | POk m -> print_endline ("M" ^ field_of_list (List.concat_map (fun (k, v) -> [k; v]) m))
+       | PErr (k, l) -> print_endline (Printf.sprintf "E%d:%d" (int_of_n k) (int_of_n l))
+       | PFuel -> print_endline "OOF")
+  | ["PRT"; p; q; ks; vs] ->
+      let m = List.combine (list_of_field ks) (list_of_field vs) in
+      (match cmd_map_to_properties (str_of_field p) m with
+       | POk t ->
+           let r2 = match cmd_map_load_properties (str_of_field q) [] t with
+             | POk m2 -> "M" ^ field_of_list (List.concat_map (fun (k, v) -> [k; v]) m2)
+             | PErr (k, l) -> Printf.sprintf "E%d:%d" (int_of_n k) (int_of_n l)
+             | PFuel -> "OOF" in
+           print_endline ("V" ^ field_of_str t ^ "\t" ^ r2)
+       | PErr (k, _) -> print_endline ("E" ^ string_of_int (int_of_n k) ^ "\t-")
+       | PFuel -> print_endline "OOF\t-")
+  | ["PDOM"; p; ks; vs] ->
+      let m = List.combine (list_of_field ks) (list_of_field vs) in
+      let pm = pp_prefix_map (str_of_field p) m in
+      print_endline ("D" ^ String.concat "" (List.map (fun kv -> if representable kv then "1" else "0") pm)
+                     ^ "\tN" ^ (if str_nodup (List.map fst pm) then "1" else "0"))
+  | ["W1252"; cs] ->
+      print_endline (String.concat " " (List.map (fun c -> match w1252_encode_char c with Some b -> string_of_int (int_of_n b) | None -> "-1") (str_of_field cs)))
   | _ -> print_endline "BADLINE")
